@@ -58,3 +58,20 @@ Example C14_nonvacuous :
   handle_double_signers [(3, [5])] [(3, 5)] [] = None /\
   slash_block 15 [] [(3, 10); (3, 10); (3, 10)] = [(3, 10); (3, 5); (3, 0)].
 Proof. exact evidence_nonvacuous. Qed.
+
+(* The chain's OWN certificate (its slash list is executed by the begin-block of the next height and can no longer be refused): a
+   well-formed list is never refused whatever has been indexed in the meantime, it slashes exactly the pairs that were not indexed yet,
+   each once.  (Before the repair recorded in KNOWN_FINDINGS.txt the raw list went through handle_double_signers and a pair indexed
+   by a transaction of the same block halted the chain: C14_old_own_certificate_halts.) *)
+Theorem C14_own_certificate_never_refused : forall ds index,
+  (forall d, In d ds -> snd d <> []) -> NoDup (pairs ds) ->
+  exists index' out, handle_own_double_signers ds index = Some (index', out).
+Proof. exact own_never_refused. Qed.
+Print Assumptions C14_own_certificate_never_refused.
+Theorem C14_own_certificate_slashes_only_new_pairs : forall ds index index' out,
+  handle_own_double_signers ds index = Some (index', out) ->
+  length out = length (filter (fun e => negb (known index (fst e) (snd e))) (pairs ds)).
+Proof. exact own_one_slash_per_new_pair. Qed.
+Example C14_old_own_certificate_halts :
+  handle_double_signers [(3, [5])] [(3, 5)] [] = None /\ handle_own_double_signers [(3, [5]); (4, [5])] [(3, 5)] = Some ([(4, 5); (3, 5)], [4]).
+Proof. exact old_own_certificate_halts. Qed.
